@@ -15,11 +15,33 @@ CHECKS = {
               "period permutation/partition/single calls, refinement x2..8; ~2.4k cases quick, ~190k thorough.",
         note=_NOTE,
         technique="property-based testing (Hypothesis): metamorphic relations with derived rounding bounds"),
+    "C03": dict(
+        level="Generated search: spectra vs max|.| of the library's own series (exact) and vs the long-double exact series (C01 bound), pseudo relations "
+              "and the 6-step rule with an ambiguity band, list/tuple/ndarray periods, object API via an existence-of-refinement sandwich oracle for "
+              "min_dt_ratio in {1,2,4,8}, energy spectra vs defining sums, spectrum intensities; ~2.9k cases quick, ~100k thorough.",
+        note=_NOTE + " Open known finding C03-KF1 (rectangle-rule input energy not sign-definite) routes negative energies that equal the defining sum.",
+        technique="property-based testing (Hypothesis): differential + reference-model oracles"),
+    "C04": dict(
+        level="Complete enumeration of observational cache state (2^7 / 2^2) x 24 mutators/settings changes x 15 observables, and of cache state x read x "
+              "other observable (read isolation), plus a Hypothesis rule-based state machine over random histories (24 mutator rules with generated "
+              "arguments, reads, explicit regeneration calls); oracle = a freshly constructed object.",
+        note=_NOTE + " The enumeration is complete for the fixed records used (quick n=96; thorough n in {95,96,128}); histories are sampled.",
+        technique="stateful property-based testing (Hypothesis RuleBasedStateMachine) + exhaustive enumeration of the cache-state space; differential oracle (fresh object)"),
     "C08": dict(
         level="Generated search over records (float/int/list), dt and integration mode against a long-double loop over the defining increments "
               "(equality on dyadic data), closed forms for constant/linear acceleration, exact peak / sign / 2^k laws.",
         note=_NOTE,
         technique="property-based testing (Hypothesis): reference-model + metamorphic oracles"),
+    "C10": dict(
+        level="Generated search against loop references with a +-1e-9 margin bracket for strict thresholds, an exact rational 'ties' clause on dyadic data "
+              "(decides strict vs non-strict without a margin), scaling / prepend / nesting laws, bracketed duration incl. no-exceedance; ~3.6k quick, ~210k thorough.",
+        note=_NOTE,
+        technique="property-based testing (Hypothesis): reference-model (long double / exact rational) + metamorphic oracles"),
+    "C16": dict(
+        level="Round trip through real files in a per-process temporary directory over records (tiny/large/negative/integer values, float/int/list), dt in "
+              "[1e-4,100] on both sides of 1 s, labels over printable ASCII, every loader entry point and factor m; ~1k quick, ~80k thorough.",
+        note=_NOTE + " 'Same to 6 / 4 decimals' is read literally (within half a unit of the last kept decimal).",
+        technique="property-based testing (Hypothesis): save/load round-trip oracle with a rational model of the format's rounding"),
 }
 
 NOT_APPLICABLE = {}
